@@ -127,6 +127,14 @@ def finish_bounded(handle, timeout_s):
     return res, err
 
 
+def _sig_match(sig, pat):
+    """known-finding signatures match by prefix, or as a glob when they contain '*'"""
+    if "*" in pat:
+        import fnmatch
+        return fnmatch.fnmatchcase(sig, pat)
+    return sig.startswith(pat)
+
+
 def read_known_findings():
     path = os.path.join(VERIF, "known_findings.txt")
     findings, fixed = [], []
@@ -238,9 +246,10 @@ def run_check(prop_id, tier="quick", seed=0):
         if bounded_res is not None:
             for fl in bounded_res.get("failures", []):
                 sig = fl.get("signature", "")
+                sig_n = sig.replace(" ", "-")
                 hit = None
                 for f in findings:
-                    if f.get("property") == prop_id and f.get("signature") and sig.startswith(f["signature"]):
+                    if f.get("property") == prop_id and f.get("signature") and _sig_match(sig_n, f["signature"]):
                         hit = f
                         break
                 if hit is not None:
